@@ -434,8 +434,6 @@ class Representation(RepresentationBaseType):
         rv = super().children() + self.media_segments
         if self.init_segment is not None:
             rv.append(self.init_segment)
-        if self.contentProtection:
-            rv += self.contentProtection
         return rv
 
     def finished(self) -> bool:
